@@ -279,6 +279,63 @@ func C19(tier rt.Tier) int {
 		}()
 	}
 	wg.Wait()
+	// leaf lists in which a hash occurs more than once ("any non-empty list"): the path of EVERY position verifies
+	// by index; lookup by leaf answers for the first position of that hash
+	dupN := 0
+	for n := 2; n <= 70; n++ {
+		for _, period := range []int{2, 3, 7} {
+			dupN++
+			ls := make([]string, n)
+			hs := make([]util.Hashable, n)
+			for i := range ls {
+				ls[i] = hhex(fmt.Sprintf("dup-%d", i%period+(i/period)%2*100))
+				hs[i] = leaf(ls[i])
+			}
+			first := map[string]int{}
+			for i, l := range ls {
+				if _, ok := first[l]; !ok {
+					first[l] = i
+				}
+			}
+			func() {
+				defer func() {
+					if r := recover(); r != nil {
+						rep.Violate(fmt.Sprintf("n=%d leaves with repeated hashes (period %d): panic: %v", n, period, r), map[string]any{"n": n, "period": period})
+					}
+				}()
+				var mt, mt2 util.MerkleTree
+				mt.ComputeTree(hs)
+				root := mt.GetRoot()
+				if want := refRoot(ls); root != want {
+					rep.Violate(fmt.Sprintf("n=%d leaves with repeated hashes (period %d): root differs from the reference root", n, period), map[string]any{"n": n, "period": period})
+					return
+				}
+				if err := mt2.SetTree(n, mt.GetTree()); err != nil {
+					rep.Violate(fmt.Sprintf("n=%d leaves with repeated hashes: SetTree of the exported tree failed: %v", n, err), map[string]any{"n": n, "period": period})
+					return
+				}
+				for i := 0; i < n; i++ {
+					for ti, t := range []*util.MerkleTree{&mt, &mt2} {
+						p := t.GetPathByIndex(i)
+						if p.LeafIndex != i || !util.VerifyMerklePath(ls[i], p, root) || !t.VerifyPath(leaf(ls[i]), p) {
+							rep.Violate(fmt.Sprintf("n=%d leaves with repeated hashes (period %d): the path of position %d (tree object %d) does not verify against the root (VerifyMerklePath %v, VerifyPath %v)", n, period, i, ti, util.VerifyMerklePath(ls[i], p, root), t.VerifyPath(leaf(ls[i]), p)), map[string]any{"n": n, "period": period, "index": i})
+							return
+						}
+						q := t.GetPath(leaf(ls[i]))
+						if q.LeafIndex != first[ls[i]] || !util.VerifyMerklePath(ls[i], q, root) {
+							rep.Violate(fmt.Sprintf("n=%d leaves with repeated hashes (period %d): lookup of the hash at position %d gives leaf index %d (its first position is %d) or a path that does not verify", n, period, i, q.LeafIndex, first[ls[i]]), map[string]any{"n": n, "period": period, "index": i})
+							return
+						}
+					}
+				}
+				mu.Lock()
+				paths += 2 * n
+				evals += 6 * n
+				mu.Unlock()
+			}()
+		}
+	}
+	rep.Set("lists_with_repeated_hashes", dupN)
 	// scale: a few LARGE trees (levels of tens of thousands of nodes, sizes that are not round): root against
 	// the reference, paths of the first/last 70 leaves and of every 197th leaf by index and by lookup
 	big := []int{32770, 70001}
@@ -343,7 +400,7 @@ func C19(tier rt.Tier) int {
 	rep.Set("traces_validated_against_impl", paths)
 	rep.Set("distinct_nontrivial", paths)
 	rep.Set("negative_verifications", negatives)
-	rep.Set("rule", fmt.Sprintf("every leaf count n = 1..%d with distinct 64-character leaf hashes, and n = 1..%d with leaf hash strings of uniform length 2, 62, 63, 65, 66, 96, 127, 128, 129, 200 (longer ones share their first 64 characters); every leaf index: path by index and by leaf lookup, verification by VerifyMerklePath and VerifyPath against a root that must equal an independent recursive reference root (own SHA3); the same path offered with every other leaf hash of the tree for n <= %d (structured neighbours, first/last/middle for larger n), with a foreign hash, with the sibling hash and with the root; large trees (sizes in 'large_trees': root against the reference, paths of the first/last 70 and every 197th leaf); export/import via GetTree/SetTree incl. rejected wrong leaf counts, also into a tree object that was used for another tree before; loads with a wrong leaf count are rejected and leave the object (fresh, loaded, re-used) answering as before; 'states' = tree sizes, 'transitions' = (n, index) pairs", maxN, smallN, allPairs))
+	rep.Set("rule", fmt.Sprintf("every leaf count n = 1..%d with distinct 64-character leaf hashes, and n = 1..%d with leaf hash strings of uniform length 2, 62, 63, 65, 66, 96, 127, 128, 129, 200 (longer ones share their first 64 characters); every leaf index: path by index and by leaf lookup, verification by VerifyMerklePath and VerifyPath against a root that must equal an independent recursive reference root (own SHA3); the same path offered with every other leaf hash of the tree for n <= %d (structured neighbours, first/last/middle for larger n), with a foreign hash, with the sibling hash and with the root; leaf lists with repeated hashes (n = 2..70, three repetition patterns: every position's path verifies by index on the computed and the loaded tree, lookup answers for the first position); large trees (sizes in 'large_trees': root against the reference, paths of the first/last 70 and every 197th leaf); export/import via GetTree/SetTree incl. rejected wrong leaf counts, also into a tree object that was used for another tree before; loads with a wrong leaf count are rejected and leave the object (fresh, loaded, re-used) answering as before; 'states' = tree sizes, 'transitions' = (n, index) pairs", maxN, smallN, allPairs))
 	rep.Sample(map[string]any{"n": 5, "index": 4, "note": "odd level: last node paired with itself"})
 	rep.Sample(map[string]any{"n": 1, "index": 0})
 	return rep.Finish()
